@@ -148,7 +148,7 @@ func init() {
 			"order and duplicates of the returned locations are ignored; ReferenceMaxNum (3000) is far above the sizes used",
 		},
 		Flavour:      "prod+overlay",
-		QuickBudgetS: 420, ThoroughBudgetS: 1500,
+		QuickBudgetS: 420, ThoroughBudgetS: 3600,
 		Spaces: func(tier string) []*core.Space {
 			var sp []*core.Space
 			for _, d := range scopeSpaces(tier) {
